@@ -92,4 +92,11 @@ CATALOG = [
     dict(pid="C17", name="key misses scale_from", edits=[("eko/couplings.py", "key = (float(a_ref[0]), float(a_ref[1]), nf, nl, scale_from, float(scale_to))", "key = (float(a_ref[0]), float(a_ref[1]), nf, nl, float(scale_to))")], expect="key_contains.scale_from"),
     dict(pid="C17", name="a() works on a_ref in place", edits=[("eko/couplings.py", "final_a = self.a_ref.copy()", "final_a = self.a_ref")], expect="C17.a["),
     dict(pid="C17", name="harmless: key built via a local", harmless=True, edits=[("eko/couplings.py", "key = (float(a_ref[0]), float(a_ref[1]), nf, nl, scale_from, float(scale_to))", "a0_, a1_ = float(a_ref[0]), float(a_ref[1])\n        key = (a0_, a1_, nf, nl, scale_from, float(scale_to))")]),
+    # ---- C15 -------------------------------------------------------------------------------------------
+    dict(pid="C15", name="expanded_nlo sign of the log term", edits=[("eko/couplings.py", "as_NLO = a_LO * (1 - b1 * a_LO * np.log(den))", "as_NLO = a_LO * (1 + b1 * a_LO * np.log(den))")], expect="rge_residual"),
+    dict(pid="C15", name="expanded_nnlo b2 - b1^2 -> b2 + b1^2", edits=[("eko/couplings.py", "(b2 - b1**2)", "(b2 + b1**2)")], expect="expanded_nnlo"),
+    dict(pid="C15", name="fixed aem: shift applied for QED order 0 too", edits=[("eko/couplings.py", "    beta_qcd0 = beta_qcd((2, 0), nf)\n    if order[1] >= 1:\n        beta_qcd0 += aem * beta_qcd((2, 1), nf)", "    beta_qcd0 = beta_qcd((2, 0), nf)\n    if order[1] >= 0:\n        beta_qcd0 += aem * beta_qcd((2, 1), nf)")], expect="fixed_aem"),
+    dict(pid="C15", name="exact rge drops a factor a", edits=[("eko/couplings.py", "rge = -(a**2) * (np.sum([a**k * b for k, b in enumerate(b_vec)]))", "rge = -a * (np.sum([a**k * b for k, b in enumerate(b_vec)]))")], expect="exact_fixed"),
+    dict(pid="C15", name="running aem: QED solution driven by the QCD beta0", edits=[("eko/couplings.py", "res_aem = expanded_qed(couplings_ref[1], order[1], beta0_qed, b_vec_qed, lmu)", "res_aem = expanded_qed(couplings_ref[1], order[1], beta0_qcd, b_vec_qed, lmu)")], expect="running_aem"),
+    dict(pid="C15", name="harmless: den inlined in exact_lo", harmless=True, edits=[("eko/couplings.py", "    den = 1.0 + beta0 * ref * lmu\n    return ref / den", "    return ref / (1.0 + beta0 * ref * lmu)")]),
 ]
